@@ -209,7 +209,10 @@ package packets
 //@ func (*Subscribe).Unpack mode bv
 //@ props C06
 //@ requires [C06] p != nil && p.FixHeader != nil && p.FixHeader.RemainLength >= 0
+//@ requires [C06] p.FixHeader.RemainLength <= r.$avail
+//@ call ReadFull#1 assert [C06] len(buf) <= r.$avail
 //@ modifies heap
+//@ preserves all(FixHeader.*), all(Subscribe.Version), all(Subscribe.FixHeader)
 //@ call Buffer.Len#1 assert [C06] (p.Version == 5 ==> subOpts(topic.Qos, topic.NoLocal, topic.RetainAsPublished, topic.RetainHandling) == opts) && (p.Version != 5 ==> topic.Qos == opts && !topic.NoLocal && !topic.RetainAsPublished && topic.RetainHandling == 0) && topic.Qos <= 2 && topic.RetainHandling <= 2 && topic.Name == string(topicFilter)
 //@ call Buffer.Len#1 assert [C06] len(p.Topics) >= 1 && p.Topics[len(p.Topics) - 1].Qos == topic.Qos && p.Topics[len(p.Topics) - 1].NoLocal == topic.NoLocal && p.Topics[len(p.Topics) - 1].RetainAsPublished == topic.RetainAsPublished && p.Topics[len(p.Topics) - 1].RetainHandling == topic.RetainHandling && p.Topics[len(p.Topics) - 1].Name == topic.Name
 //@ loop 1 invariant bufOK(bufr)
@@ -229,38 +232,50 @@ package packets
 //@ func (*Puback).Unpack mode bv
 //@ props C06
 //@ requires [C06] p != nil && p.FixHeader != nil && p.FixHeader.RemainLength >= 0
+//@ requires [C06] p.FixHeader.RemainLength <= r.$avail
+//@ call ReadFull#1 assert [C06] len(buf) <= r.$avail
 //@ modifies heap
-//@ preserves all(FixHeader.*), all(Puback.Version)
+//@ preserves all(FixHeader.*), all(Puback.Version), all(Puback.FixHeader)
 //@ ensures [C06] result == nil ==> p.FixHeader.RemainLength >= 2 && p.PacketID == (uint16(bufr.$data[0]) << 8 | uint16(bufr.$data[1])) && bufr.$w == p.FixHeader.RemainLength && bufr.$r <= bufr.$w
 //@ ensures [C06] result == nil && p.FixHeader.RemainLength == 2 ==> p.Code == 0
 //@ ensures [C06] result == nil && p.FixHeader.RemainLength > 2 && p.Version == 5 ==> p.Code == bufr.$data[2] && p.Properties != nil
+//@ ensures [C06] result == nil ==> p.FixHeader.RemainLength >= 2
 
 //@ func (*Pubrec).Unpack mode bv
 //@ props C06
 //@ requires [C06] p != nil && p.FixHeader != nil && p.FixHeader.RemainLength >= 0
+//@ requires [C06] p.FixHeader.RemainLength <= r.$avail
+//@ call ReadFull#1 assert [C06] len(buf) <= r.$avail
 //@ modifies heap
-//@ preserves all(FixHeader.*), all(Pubrec.Version)
+//@ preserves all(FixHeader.*), all(Pubrec.Version), all(Pubrec.FixHeader)
 //@ ensures [C06] result == nil ==> p.FixHeader.RemainLength >= 2 && p.PacketID == (uint16(bufr.$data[0]) << 8 | uint16(bufr.$data[1])) && bufr.$w == p.FixHeader.RemainLength && bufr.$r <= bufr.$w
 //@ ensures [C06] result == nil && p.FixHeader.RemainLength == 2 ==> p.Code == 0
 //@ ensures [C06] result == nil && p.FixHeader.RemainLength > 2 && p.Version == 5 ==> p.Code == bufr.$data[2] && p.Properties != nil
+//@ ensures [C06] result == nil ==> p.FixHeader.RemainLength >= 2
 
 //@ func (*Pubcomp).Unpack mode bv
 //@ props C06
 //@ requires [C06] p != nil && p.FixHeader != nil && p.FixHeader.RemainLength >= 0
+//@ requires [C06] p.FixHeader.RemainLength <= r.$avail
+//@ call ReadFull#1 assert [C06] len(buf) <= r.$avail
 //@ modifies heap
-//@ preserves all(FixHeader.*), all(Pubcomp.Version)
+//@ preserves all(FixHeader.*), all(Pubcomp.Version), all(Pubcomp.FixHeader)
 //@ ensures [C06] result == nil ==> p.FixHeader.RemainLength >= 2 && p.PacketID == (uint16(bufr.$data[0]) << 8 | uint16(bufr.$data[1])) && bufr.$w == p.FixHeader.RemainLength && bufr.$r <= bufr.$w
 //@ ensures [C06] result == nil && p.FixHeader.RemainLength == 2 ==> p.Code == 0
 //@ ensures [C06] result == nil && p.FixHeader.RemainLength > 2 && p.Version == 5 ==> p.Code == bufr.$data[2] && p.Properties != nil
+//@ ensures [C06] result == nil ==> p.FixHeader.RemainLength >= 2
 
 //@ func (*Pubrel).Unpack mode bv
 //@ props C06
 //@ requires [C06] p != nil && p.FixHeader != nil && p.FixHeader.RemainLength >= 0
+//@ requires [C06] p.FixHeader.RemainLength <= r.$avail
+//@ call ReadFull#1 assert [C06] len(buf) <= r.$avail
 //@ modifies heap
-//@ preserves all(FixHeader.*)
+//@ preserves all(FixHeader.*), all(Pubrel.FixHeader)
 //@ ensures [C06] result == nil ==> p.FixHeader.RemainLength >= 2 && p.PacketID == (uint16(bufr.$data[0]) << 8 | uint16(bufr.$data[1])) && bufr.$w == p.FixHeader.RemainLength && bufr.$r <= bufr.$w
 //@ ensures [C06] result == nil && p.FixHeader.RemainLength == 2 ==> p.Code == 0
 //@ ensures [C06] result == nil && p.FixHeader.RemainLength > 2 ==> p.Code == bufr.$data[2] && p.Properties != nil
+//@ ensures [C06] result == nil ==> p.FixHeader.RemainLength >= 2
 
 // Pack of an acknowledgement: the identifier first (big endian); a reason code and a property block only for v5 and
 // only if there is something to say; the fixed header announces exactly the bytes written. Decoding the two
@@ -339,6 +354,7 @@ package packets
 //@ func NewPublishPacket mode bv
 //@ props C06
 //@ requires [C06] fh != nil && fh.RemainLength >= 0
+//@ requires [C06] fh.RemainLength <= r.$avail
 //@ modifies heap
 //@ preserves all(FixHeader.*)
 //@ ensures [C06] result1 == nil ==> result0 != nil && result0.FixHeader == fh && result0.Version == version && result0.Qos <= 2 && !(result0.Qos == 0 && result0.Dup)
@@ -351,13 +367,15 @@ package packets
 //@ func (*Publish).Unpack mode bv
 //@ props C06
 //@ requires [C06] p != nil && p.FixHeader != nil && p.FixHeader.RemainLength >= 0
+//@ requires [C06] p.FixHeader.RemainLength <= r.$avail
+//@ call ReadFull#1 assert [C06] len(buf) <= r.$avail
 //@ modifies heap
 //@ preserves all(FixHeader.*), all(Publish.Version), all(Publish.Qos), all(Publish.Dup), all(Publish.Retain), all(Publish.FixHeader)
 //@ ensures [C06] result == nil ==> bufr.$w == p.FixHeader.RemainLength && bufr.$r == bufr.$w && len(p.TopicName) == int(uint16(bufr.$data[0]) << 8 | uint16(bufr.$data[1])) && 2 + len(p.TopicName) <= p.FixHeader.RemainLength
 //@ ensures [C06] result == nil ==> (forall k int :: 0 <= k && k < len(p.TopicName) ==> p.TopicName[k] == bufr.$data[2 + k])
 //@ ensures [C06] result == nil && p.Qos > 0 ==> 4 + len(p.TopicName) <= p.FixHeader.RemainLength && p.PacketID == (uint16(bufr.$data[2 + len(p.TopicName)]) << 8 | uint16(bufr.$data[3 + len(p.TopicName)]))
 //@ ensures [C06] result == nil && p.Version != 5 ==> len(p.Payload) == p.FixHeader.RemainLength - 2 - len(p.TopicName) - (p.Qos > 0 ? 2 : 0)
-//@ ensures [C06] result == nil ==> (forall k int :: 0 <= k && k < len(p.Payload) ==> p.Payload[k] == bufr.$data[p.FixHeader.RemainLength - len(p.Payload) + k])
+//@ ensures [C06] result == nil ==> (forall k int :: 0 <= k && k < len(p.Payload) ==> p.Payload[k] == bufr.$data[bufr.$w - len(p.Payload) + k])
 //@ ensures [C06] result == nil && p.Version == 5 ==> p.Properties != nil
 //@ call ValidTopicName#1 assert [C06] $arg0 && $arg1 == p.TopicName
 //@ ensures [C06] result == nil ==> (forall i int :: 0 <= i && i < len(p.TopicName) ==> p.TopicName[i] != 43 && p.TopicName[i] != 35)
@@ -396,6 +414,8 @@ package packets
 //@ func (*Unsubscribe).Unpack mode bv
 //@ props C06
 //@ requires [C06] u != nil && u.FixHeader != nil && u.FixHeader.RemainLength >= 0
+//@ requires [C06] u.FixHeader.RemainLength <= r.$avail
+//@ call ReadFull#1 assert [C06] len(buf) <= r.$avail
 //@ modifies heap
 //@ preserves all(FixHeader.*), all(Unsubscribe.Version), all(Unsubscribe.FixHeader)
 //@ loop 1 invariant bufOK(bufr) && bufr.$w == u.FixHeader.RemainLength && u.FixHeader.RemainLength >= 2 && u.PacketID == (uint16(bufr.$data[0]) << 8 | uint16(bufr.$data[1]))
@@ -406,6 +426,7 @@ package packets
 //@ func NewUnsubscribePacket mode bv
 //@ props C06
 //@ requires [C06] fh != nil && fh.RemainLength >= 0
+//@ requires [C06] fh.RemainLength <= r.$avail
 //@ modifies heap
 //@ preserves all(FixHeader.*)
 //@ ensures [C06] result1 == nil ==> result0 != nil && fh.Flags == 2 && result0.FixHeader == fh && result0.Version == version && len(result0.Topics) >= 1
@@ -427,6 +448,8 @@ package packets
 //@ func (*Suback).Unpack mode bv
 //@ props C06
 //@ requires [C06] p != nil && p.FixHeader != nil && p.FixHeader.RemainLength >= 0
+//@ requires [C06] p.FixHeader.RemainLength <= r.$avail
+//@ call ReadFull#1 assert [C06] len(buf) <= r.$avail
 //@ modifies heap
 //@ preserves all(FixHeader.*), all(Suback.Version), all(Suback.FixHeader)
 //@ loop 1 invariant bufOK(bufr) && bufr.$w == p.FixHeader.RemainLength && p.FixHeader.RemainLength >= 2 && bufr.$r >= 2 && p.PacketID == (uint16(bufr.$data[0]) << 8 | uint16(bufr.$data[1]))
@@ -437,6 +460,7 @@ package packets
 //@ func NewSubackPacket mode bv
 //@ props C06
 //@ requires [C06] fh != nil && fh.RemainLength >= 0
+//@ requires [C06] fh.RemainLength <= r.$avail
 //@ modifies heap
 //@ preserves all(FixHeader.*)
 //@ ensures [C06] result1 == nil ==> result0 != nil && fh.Flags == 0 && result0.FixHeader == fh && result0.Version == version && len(result0.Payload) >= 1
@@ -455,6 +479,8 @@ package packets
 //@ func (*Unsuback).Unpack mode bv
 //@ props C06
 //@ requires [C06] p != nil && p.FixHeader != nil && p.FixHeader.RemainLength >= 0
+//@ requires [C06] p.FixHeader.RemainLength <= r.$avail
+//@ call ReadFull#1 assert [C06] len(buf) <= r.$avail
 //@ modifies heap
 //@ preserves all(FixHeader.*), all(Unsuback.Version), all(Unsuback.FixHeader)
 //@ loop 1 invariant bufOK(bufr) && bufr.$w == p.FixHeader.RemainLength && p.FixHeader.RemainLength >= 2 && bufr.$r >= 2 && p.PacketID == (uint16(bufr.$data[0]) << 8 | uint16(bufr.$data[1]))
@@ -465,6 +491,7 @@ package packets
 //@ func NewUnsubackPacket mode bv
 //@ props C06
 //@ requires [C06] fh != nil && fh.RemainLength >= 0
+//@ requires [C06] fh.RemainLength <= r.$avail
 //@ modifies heap
 //@ preserves all(FixHeader.*)
 //@ ensures [C06] result1 == nil ==> result0 != nil && fh.Flags == 0 && result0.FixHeader == fh && result0.Version == version
@@ -485,6 +512,8 @@ package packets
 //@ func (*Connack).Unpack mode bv
 //@ props C06
 //@ requires [C06] c != nil && c.FixHeader != nil && c.FixHeader.RemainLength >= 0
+//@ requires [C06] c.FixHeader.RemainLength <= r.$avail
+//@ call ReadFull#1 assert [C06] len(buf) <= r.$avail
 //@ modifies heap
 //@ preserves all(FixHeader.*), all(Connack.Version), all(Connack.FixHeader)
 //@ ensures [C06] result == nil ==> c.FixHeader.RemainLength >= 2 && bufr.$w == c.FixHeader.RemainLength && (bufr.$data[0] == 0 || bufr.$data[0] == 1) && c.SessionPresent == (bufr.$data[0] == 1) && c.Code == bufr.$data[1]
@@ -493,6 +522,7 @@ package packets
 //@ func NewConnackPacket mode bv
 //@ props C06
 //@ requires [C06] fh != nil && fh.RemainLength >= 0
+//@ requires [C06] fh.RemainLength <= r.$avail
 //@ modifies heap
 //@ preserves all(FixHeader.*)
 //@ ensures [C06] result1 == nil ==> result0 != nil && fh.Flags == 0 && result0.FixHeader == fh && result0.Version == version
@@ -515,6 +545,8 @@ package packets
 //@ func (*Disconnect).Unpack mode bv
 //@ props C06
 //@ requires [C06] d != nil && d.FixHeader != nil && d.FixHeader.RemainLength >= 0
+//@ requires [C06] d.FixHeader.RemainLength <= r.$avail
+//@ call ReadFull#1 assert [C06] len(buf) <= r.$avail
 //@ modifies heap
 //@ preserves all(FixHeader.*), all(Disconnect.Version), all(Disconnect.FixHeader)
 //@ ensures [C06] result == nil && d.Version == 5 ==> d.Properties != nil && (d.FixHeader.RemainLength == 0 ==> d.Code == 0)
@@ -523,6 +555,7 @@ package packets
 //@ func NewDisConnectPackets mode bv
 //@ props C06
 //@ requires [C06] fh != nil && fh.RemainLength >= 0
+//@ requires [C06] fh.RemainLength <= r.$avail
 //@ modifies heap
 //@ preserves all(FixHeader.*)
 //@ ensures [C06] result1 == nil ==> result0 != nil && fh.Flags == 0 && result0.FixHeader == fh && result0.Version == version && (version == 5 ==> result0.Properties != nil)
@@ -541,6 +574,8 @@ package packets
 //@ func (*Auth).Unpack mode bv
 //@ props C06
 //@ requires [C06] a != nil && a.FixHeader != nil && a.FixHeader.RemainLength >= 0
+//@ requires [C06] a.FixHeader.RemainLength <= r.$avail
+//@ call ReadFull#1 assert [C06] len(buf) <= r.$avail
 //@ modifies heap
 //@ preserves all(FixHeader.*), all(Auth.FixHeader)
 //@ ensures [C06] result == nil && a.FixHeader.RemainLength == 0 ==> a.Code == 0
@@ -549,6 +584,7 @@ package packets
 //@ func NewAuthPacket mode bv
 //@ props C06
 //@ requires [C06] fh != nil && fh.RemainLength >= 0
+//@ requires [C06] fh.RemainLength <= r.$avail
 //@ modifies heap
 //@ preserves all(FixHeader.*)
 //@ ensures [C06] result1 == nil ==> result0 != nil && fh.Flags == 0 && result0.FixHeader == fh
@@ -605,6 +641,8 @@ package packets
 //@ func (*Connect).Unpack mode bv
 //@ props C06
 //@ requires [C06] c != nil && c.FixHeader != nil && c.FixHeader.RemainLength >= 0
+//@ requires [C06] c.FixHeader.RemainLength <= r.$avail
+//@ call ReadFull#1 assert [C06] len(buf) <= r.$avail
 //@ modifies heap
 //@ preserves all(FixHeader.*), all(Connect.FixHeader)
 //@ abstract call bytes.Equal pure
@@ -636,6 +674,7 @@ package packets
 //@ func NewConnectPacket mode bv
 //@ props C06
 //@ requires [C06] fh != nil && fh.RemainLength >= 0
+//@ requires [C06] fh.RemainLength <= r.$avail
 //@ modifies heap
 //@ preserves all(FixHeader.*)
 //@ ensures [C06] result1 == nil ==> result0 != nil && fh.Flags == 0 && result0.FixHeader == fh && result0.Version == result0.ProtocolLevel
@@ -657,3 +696,73 @@ package packets
 //@ call Buffer.Write#5 assert [C06] c.UsernameFlag && len(p) == 2 + len(c.Username) && (forall k int :: 0 <= k && k < len(c.Username) ==> p[2 + k] == c.Username[k])
 //@ call Buffer.Write#6 assert [C06] c.PasswordFlag && len(p) == 2 + len(c.Password) && (forall k int :: 0 <= k && k < len(c.Password) ==> p[2 + k] == c.Password[k])
 //@ call FixHeader.Pack#1 assert [C06] c.FixHeader.PacketType == 1 && c.FixHeader.Flags == 0 && c.FixHeader.RemainLength == bufw.$w - bufw.$r && bufw.$r == 0
+
+// ---------------------------------------------------------------------------
+// C06 — memory in proportion to the bytes supplied. r.$avail (trusted/io.gvc) is the number of bytes the peer has
+// actually supplied on r and that have not been consumed yet. Every Unpack allocates the announced remaining length in
+// one piece before reading it: the allocation is in proportion only if that many bytes are there — a precondition
+// handed up to whoever read the fixed header (Reader.ReadPacket).
+//@ func NewPubackPacket mode bv
+//@ props C06
+//@ requires [C06] fh != nil && fh.RemainLength >= 0
+//@ requires [C06] fh.RemainLength <= r.$avail
+//@ modifies heap
+//@ preserves all(FixHeader.*)
+//@ ensures [C06] result1 == nil ==> result0 != nil && result0.FixHeader == fh && result0.Version == version && fh.RemainLength >= 2
+//@ ensures [C06] (result0 == nil) == (result1 != nil)
+//@ func NewPubrecPacket mode bv
+//@ props C06
+//@ requires [C06] fh != nil && fh.RemainLength >= 0
+//@ requires [C06] fh.RemainLength <= r.$avail
+//@ modifies heap
+//@ preserves all(FixHeader.*)
+//@ ensures [C06] result1 == nil ==> result0 != nil && result0.FixHeader == fh && result0.Version == version && fh.RemainLength >= 2
+//@ ensures [C06] (result0 == nil) == (result1 != nil)
+//@ func NewPubcompPacket mode bv
+//@ props C06
+//@ requires [C06] fh != nil && fh.RemainLength >= 0
+//@ requires [C06] fh.RemainLength <= r.$avail
+//@ modifies heap
+//@ preserves all(FixHeader.*)
+//@ ensures [C06] result1 == nil ==> result0 != nil && result0.FixHeader == fh && result0.Version == version && fh.RemainLength >= 2
+//@ ensures [C06] (result0 == nil) == (result1 != nil)
+//@ func NewPubrelPacket mode bv
+//@ props C06
+//@ requires [C06] fh != nil && fh.RemainLength >= 0
+//@ requires [C06] fh.RemainLength <= r.$avail
+//@ modifies heap
+//@ preserves all(FixHeader.*)
+//@ ensures [C06] result1 == nil ==> result0 != nil && result0.FixHeader == fh && fh.RemainLength >= 2
+//@ ensures [C06] (result0 == nil) == (result1 != nil)
+//@ func NewSubscribePacket mode bv
+//@ props C06
+//@ requires [C06] fh != nil && fh.RemainLength >= 0
+//@ requires [C06] fh.RemainLength <= r.$avail
+//@ modifies heap
+//@ preserves all(FixHeader.*)
+//@ ensures [C06] result1 == nil ==> result0 != nil && fh.Flags == 2 && result0.FixHeader == fh && result0.Version == version
+//@ ensures [C06] fh.Flags != 2 ==> result1 != nil
+//@ ensures [C06] (result0 == nil) == (result1 != nil)
+
+// NewPacket: the decoder of the packet type named in the fixed header, nothing else; no packet without an error,
+// no error with a packet.
+//@ func NewPacket mode bv
+//@ props C06
+//@ requires [C06] fh != nil && fh.RemainLength >= 0
+//@ requires [C06] fh.RemainLength <= r.$avail
+//@ modifies heap
+//@ preserves all(FixHeader.*)
+//@ ensures [C06] fh.PacketType == 0 || fh.PacketType > 15 ==> result1 != nil
+//@ ensures [C06] result1 == nil ==> result0 != nil && (result0.(type *Connect) ==> result0.(*Connect) != nil)
+//@ ensures [C06] result1 == nil && fh.PacketType == 3 ==> result0.(type *Publish) && result0.(*Publish) != nil && result0.(*Publish).FixHeader == fh
+//@ ensures [C06] result1 == nil && fh.PacketType == 8 ==> result0.(type *Subscribe) && result0.(*Subscribe) != nil && result0.(*Subscribe).FixHeader == fh
+//@ ensures [C06] result1 == nil && fh.PacketType == 1 ==> result0.(type *Connect) && result0.(*Connect) != nil && result0.(*Connect).FixHeader == fh
+
+// Reader.ReadPacket: first byte = type and flags, then the remaining length, then the body decoder. Nothing here
+// makes sure the announced remaining length has arrived before the body decoder allocates it (known finding).
+//@ func (*Reader).ReadPacket mode bv
+//@ props C06
+//@ requires [C06] r != nil && r.bufr != nil && 0 <= r.bufr.$pos && r.bufr.$pos <= r.bufr.$len && r.bufr.$len < 4611686018427387904
+//@ modifies heap, ghostall(io.ByteReader.$pos)
+//@ ensures [C06] result1 != nil ==> result0 == nil
+//@ call NewPacket#1 assert [C06] fh.PacketType == (first >> 4) && fh.Flags == (first & 15) && fh.RemainLength == length && 0 <= length && length <= 268435455 && version == r.version
